@@ -104,7 +104,11 @@ def run_case(case):
     obs = {'continuations': 0, 'kwargs_checked': 0, 'resume_with_value': 0, 'resume_without_value': 0, 'restored_runs': 0, 'terminal': {},
            'unsuccessful': 0, 'resume_with_pause': int(bool(case.get('resume_mode'))), 'paused_hook_checkpoints': 0, 'subclassed_commands': int(bool(prog.get('own_commands')))}
     if r.get('inconclusive'):
-        return {'viol': [], 'obs': obs, 'inconclusive': r['inconclusive'], 'key': [prog, case['crash'], case.get('resume_mode'), case.get('exit_crash'), case.get('paused_crash')], 'nontrivial': False}
+        lv = []
+        if r['inconclusive'] == 'load-raised':
+            lv.append(judges.V('restore-raised', 'restore-raised:%s' % r['load_raised'].split(':')[0],
+                               'the checkpoint of a process with a pending continuation cannot be loaded: %s (crash points %s)\n%s' % (r['load_raised'], case['crash'], r['where'])))
+        return {'viol': lv, 'obs': obs, 'inconclusive': None if lv else r['inconclusive'], 'key': [prog, case['crash'], case.get('resume_mode'), case.get('exit_crash'), case.get('paused_crash')], 'nontrivial': False}
     exp = programs.expected_run(prog, [(has, programs._jsonable(programs.special(val))) for has, val in resumes])
     got = [[t[1], t[4], t[5]] for t in r['trace'] if t[0] == 'enter']
     if xc is not None and r.get('restores'):
